@@ -116,6 +116,46 @@ func bytesPayload(b []byte) string {
 	return "v" + hex.EncodeToString(b)
 }
 
+// ---- mechanism names in protocol fields --------------------------------------------
+
+var plainNameRe = regexp.MustCompile(`^[A-Za-z0-9_.+-]+$`)
+
+// encName writes a mechanism name as a protocol field: itself when it is made of
+// [A-Za-z0-9_.+-] (and is not the empty-list marker "-"), otherwise '%' + hex.
+func encName(n string) string {
+	if n != "-" && plainNameRe.MatchString(n) {
+		return n
+	}
+	return "%" + hex.EncodeToString([]byte(n))
+}
+
+func decName(f string) string {
+	if strings.HasPrefix(f, "%") {
+		b, _ := hex.DecodeString(f[1:])
+		return string(b)
+	}
+	return f
+}
+
+func encNames(l []string) string {
+	var out []string
+	for _, n := range l {
+		out = append(out, encName(n))
+	}
+	return common.Join(out, ",")
+}
+
+func decNames(f string) []string {
+	if f == "-" {
+		return nil
+	}
+	var out []string
+	for _, n := range strings.Split(f, ",") {
+		out = append(out, decName(n))
+	}
+	return out
+}
+
 // ---- mechanisms -----------------------------------------------------------------------
 
 type step struct {
@@ -154,6 +194,7 @@ var errScripted = errors.New("scripted mechanism error")
 // trace of one negotiation
 type trace struct {
 	used      string   // name of the mechanism whose Start/Next ran first
+	usedSet   bool
 	results   []step   // observed result of every Step (in order)
 	calls     []string // challenges handed to Next (payload syntax)
 	afterErr  bool     // a Step ran after a Step that returned an error
@@ -165,8 +206,8 @@ type trace struct {
 }
 
 func (t *trace) record(name string, more bool, resp []byte, err error) {
-	if t.used == "" {
-		t.used = name
+	if !t.usedSet {
+		t.used, t.usedSet = name, true
 	}
 	if t.errored {
 		t.afterErr = true
@@ -265,10 +306,10 @@ func realMech(name string) (sasl.Mechanism, bool) {
 	return sasl.Mechanism{}, false
 }
 
-func buildMechs(names []string, script []step, t *trace) []sasl.Mechanism {
+func buildMechs(names []string, script []step, t *trace, allScripted bool) []sasl.Mechanism {
 	var ms []sasl.Mechanism
 	for _, n := range names {
-		if m, ok := realMech(n); ok {
+		if m, ok := realMech(n); ok && !allScripted {
 			ms = append(ms, wrapped(m, t))
 		} else {
 			ms = append(ms, scripted(n, script, t))
@@ -302,6 +343,10 @@ func instrument(f xmpp.StreamFeature, res *negResult) xmpp.StreamFeature {
 }
 
 func negotiate(conn *nc.Conn, recv bool, f xmpp.StreamFeature) (res negResult) {
+	return negotiateCtx(context.Background(), conn, recv, f)
+}
+
+func negotiateCtx(ctx context.Context, conn *nc.Conn, recv bool, f xmpp.StreamFeature) (res negResult) {
 	res.conn = conn
 	feat := instrument(f, &res)
 	neg := xmpp.NewNegotiator(func(*xmpp.Session, *xmpp.StreamConfig) xmpp.StreamConfig {
@@ -311,9 +356,9 @@ func negotiate(conn *nc.Conn, recv bool, f xmpp.StreamFeature) (res negResult) {
 		var s *xmpp.Session
 		var err error
 		if recv {
-			s, err = xmpp.ReceiveSession(context.Background(), conn, xmpp.Secure, neg)
+			s, err = xmpp.ReceiveSession(ctx, conn, xmpp.Secure, neg)
 		} else {
-			s, err = xmpp.NewSession(context.Background(), jid.MustParse("example.net"), jid.MustParse("user@example.net"), conn, xmpp.Secure, neg)
+			s, err = xmpp.NewSession(ctx, jid.MustParse("example.net"), jid.MustParse("user@example.net"), conn, xmpp.Secure, neg)
 		}
 		res.sessErr = err
 		if s != nil {
@@ -334,6 +379,8 @@ func errClass(res negResult, t *trace) string {
 		return "nil"
 	case errors.Is(err, nc.ErrWrite):
 		return "write"
+	case errors.Is(err, context.Canceled):
+		return "ctx"
 	case errors.Is(err, sasl.ErrAuthn):
 		return "authnerr"
 	case t.lastErr != nil && errors.Is(err, t.lastErr):
@@ -357,6 +404,15 @@ type cliCase struct {
 	// library wrote (used for a real SCRAM exchange); it returns the event in field
 	// syntax ("" = end of script).
 	dyn func(k int, written []byte) string
+	// allScripted: every configured mechanism is a scripted one, whatever its name
+	// (line operation "clis")
+	allScripted bool
+	// hostile environment (line operation "clie"): wfail > 0: the wfail-th SASL element the
+	// initiator writes, and every later write, fails; cancel >= 0: the context is cancelled
+	// when that many peer elements have been delivered (0: with the features list)
+	env    bool
+	wfail  int
+	cancel int
 }
 
 func cliEventXML(ev string) (string, error) {
@@ -394,14 +450,28 @@ func fieldSteps(st []step) string {
 }
 
 func (c cliCase) line() string {
-	return fmt.Sprintf("cli %s %s %s %s", common.Join(c.mechs, ","), common.Join(c.adv, ","), fieldSteps(c.steps), common.Join(c.peer, ","))
+	if c.env {
+		b, k := "-", "-"
+		if c.wfail > 0 {
+			b = fmt.Sprint(c.wfail - 1)
+		}
+		if c.cancel >= 0 {
+			k = fmt.Sprint(c.cancel)
+		}
+		return fmt.Sprintf("clie %s %s %s %s %s %s", b, k, encNames(c.mechs), encNames(c.adv), fieldSteps(c.steps), common.Join(c.peer, ","))
+	}
+	op := "cli"
+	if c.allScripted {
+		op = "clis"
+	}
+	return fmt.Sprintf("%s %s %s %s %s", op, encNames(c.mechs), encNames(c.adv), fieldSteps(c.steps), common.Join(c.peer, ","))
 }
 
 const tailOK = "<?xml version='1.0'?><stream:stream xmlns='jabber:client' xmlns:stream='http://etherx.jabber.org/streams' version='1.0' id='sid2' from='example.net' to='user@example.net'><stream:features/>"
 
 func runClient(r *common.Run, c cliCase, class string) error {
 	var t trace
-	mechs := buildMechs(c.mechs, c.steps, &t)
+	mechs := buildMechs(c.mechs, c.steps, &t, c.allScripted)
 	if len(mechs) == 0 {
 		return fmt.Errorf("client case without mechanisms")
 	}
@@ -411,7 +481,15 @@ func runClient(r *common.Run, c cliCase, class string) error {
 		adv.WriteString("<mechanism>" + nc.Esc(a) + "</mechanism>")
 	}
 	adv.WriteString("</mechanisms></stream:features>")
-	chunks := []nc.Chunk{nc.S(nc.Header("jabber:client", "sid1", "example.net", "user@example.net")), nc.S(adv.String())}
+	ctx, cancelCtx := context.WithCancel(context.Background())
+	defer cancelCtx()
+	advXML := adv.String()
+	chunks := []nc.Chunk{nc.S(nc.Header("jabber:client", "sid1", "example.net", "user@example.net")), {Dyn: func([]byte) []byte {
+		if c.env && c.cancel == 0 {
+			cancelCtx()
+		}
+		return []byte(advXML)
+	}}}
 	var delivered []string // events in delivery order
 	restarted := func(w []byte) bool { return bytes.Count(w, []byte("<?xml")) > 1 }
 	nEvChunks := len(c.peer)
@@ -440,6 +518,9 @@ func runClient(r *common.Run, c cliCase, class string) error {
 				return nil
 			}
 			delivered = append(delivered, ev)
+			if c.env && c.cancel == len(delivered) {
+				cancelCtx()
+			}
 			return []byte(x)
 		}})
 	}
@@ -456,12 +537,18 @@ func runClient(r *common.Run, c cliCase, class string) error {
 		}
 	}
 	conn := nc.NewConn(chunks...)
-	res := negotiate(conn, false, xmpp.SASL("", "secret", mechs...))
+	if c.env && c.wfail > 0 {
+		// write 1 is the stream header
+		conn.FailWriteCall = 1 + c.wfail
+	}
+	res := negotiateCtx(ctx, conn, false, xmpp.SASL("", "secret", mechs...))
 	if c.dyn != nil {
 		c.peer = delivered
 	}
 	nEv := len(c.peer)
-	if _, ok := realMech(t.used); ok {
+	isReal := false
+	if _, ok := realMech(t.used); ok && !c.allScripted && t.used != "" {
+		isReal = true
 		c.steps = t.results
 	}
 
@@ -473,7 +560,7 @@ func runClient(r *common.Run, c cliCase, class string) error {
 			switch {
 			case e.Name.Space == nsSASL && e.Name.Local == "auth":
 				m, _ := e.AttrVal("mechanism")
-				sent = append(sent, "auth/"+m+"/"+canonPayload(e.Text))
+				sent = append(sent, "auth/"+encName(m)+"/"+canonPayload(e.Text))
 			case e.Name.Space == nsSASL && e.Name.Local == "response":
 				sent = append(sent, "resp/"+canonPayload(e.Text))
 			default:
@@ -483,16 +570,16 @@ func runClient(r *common.Run, c cliCase, class string) error {
 	}
 	authn := res.called > 0 && res.mask&xmpp.Authn != 0
 	errc := errClass(res, &t)
-	used := t.used
-	if used == "" {
-		used = "-"
+	used := "-"
+	if t.usedSet {
+		used = encName(t.used)
 	}
 	obs := fmt.Sprintf("%s %s %s %s %s", common.B(authn), errc, used, common.Join(sent, ","), common.Join(t.calls, ","))
 	if res.panicV != "" {
 		obs = "PANIC"
 	}
 	line := c.line()
-	if _, ok := realMech(t.used); ok {
+	if isReal {
 		// real mechanisms use random nonces: replace every payload by an index in order
 		// of first appearance (in the line first, then in the observation)
 		line, obs = canonPayloads(line, obs)
@@ -551,30 +638,63 @@ func runClient(r *common.Run, c cliCase, class string) error {
 	if t.afterErr {
 		r.Fail("client-no-step-after-error", "step-after-error", lines, "Step called on a mechanism that had returned an error")
 	}
-	if t.used != "" {
-		first := ""
-	sel:
-		for _, m := range c.mechs {
-			for _, a := range c.adv {
-				if a == m {
-					first = m
-					break sel
-				}
+	member := func(l []string, x string) bool {
+		for _, y := range l {
+			if x == y {
+				return true
 			}
 		}
-		if first != t.used {
+		return false
+	}
+	if t.usedSet {
+		first, found := "", false
+		for _, m := range c.mechs {
+			if member(c.adv, m) {
+				first, found = m, true
+				break
+			}
+		}
+		switch {
+		case !member(c.adv, t.used):
+			r.Fail("client-mechanism-selection", "used-not-offered", lines, fmt.Sprintf("mechanism %q is stepped, the receiver offered %q", t.used, c.adv))
+		case !member(c.mechs, t.used):
+			r.Fail("client-mechanism-selection", "used-not-configured", lines, fmt.Sprintf("mechanism %q is stepped, configured are %q", t.used, c.mechs))
+		case !found || first != t.used:
 			r.Fail("client-mechanism-selection", "used-not-first-common", lines, fmt.Sprintf("mechanism %q used, first common one is %q", t.used, first))
 		}
 	} else if len(sent) > 0 {
 		r.Fail("client-mechanism-selection", "sent-without-mechanism", lines, "elements sent although no mechanism was selected")
 	}
-	for _, s := range sent {
-		if strings.HasPrefix(s, "auth/") {
-			m := strings.Split(s, "/")[1]
-			if m != t.used {
-				r.Fail("client-mechanism-selection", "auth-names-other-mechanism", lines, "auth names "+m+" but "+t.used+" is stepped")
+	// the mechanism named in <auth/> is, by exact string equality, one the receiver offered,
+	// one that is configured, and the one that is stepped
+	if len(streams) > 0 {
+		for _, e := range streams[0].Elems {
+			if e.Name.Space == nsSASL && e.Name.Local == "auth" {
+				m, _ := e.AttrVal("mechanism")
+				switch {
+				case !member(c.adv, m):
+					r.Fail("client-mechanism-selection", "auth-names-unoffered-mechanism", lines, fmt.Sprintf("<auth mechanism=%q/> but the receiver offered %q", m, c.adv))
+				case !member(c.mechs, m):
+					r.Fail("client-mechanism-selection", "auth-names-unconfigured-mechanism", lines, fmt.Sprintf("<auth mechanism=%q/> but configured are %q", m, c.mechs))
+				case !t.usedSet || m != t.used:
+					r.Fail("client-mechanism-selection", "auth-names-other-mechanism", lines, "auth names "+m+" but "+t.used+" is stepped")
+				}
 			}
 		}
+	}
+	if authn {
+		onWire := false
+		for _, x := range sent {
+			if strings.HasPrefix(x, "auth/") {
+				onWire = true
+			}
+		}
+		if !onWire {
+			r.Fail("client-authn-auth-not-sent", "no-auth-on-wire", lines, "authenticated although no <auth/> element reached the connection")
+		}
+	}
+	if authn && !t.usedSet {
+		r.Fail("client-mechanism-selection", "authn-without-mechanism", lines, "authenticated although no mechanism ran")
 	}
 	return nil
 }
@@ -608,13 +728,19 @@ type srvCase struct {
 	peer  []string
 	// wfail > 0: the wfail-th SASL element the receiver writes (and every later write) fails
 	wfail int
+	// allScripted: every configured mechanism is scripted whatever its name (operation "srvs")
+	allScripted bool
 }
 
 func (c srvCase) line() string {
 	if c.wfail > 0 {
-		return fmt.Sprintf("srvw %d %s %s %s %s", c.wfail-1, common.Join(c.mechs, ","), fieldSteps(c.steps), c.perm, common.Join(c.peer, ","))
+		return fmt.Sprintf("srvw %d %s %s %s %s", c.wfail-1, encNames(c.mechs), fieldSteps(c.steps), c.perm, common.Join(c.peer, ","))
 	}
-	return fmt.Sprintf("srv %s %s %s %s", common.Join(c.mechs, ","), fieldSteps(c.steps), c.perm, common.Join(c.peer, ","))
+	op := "srv"
+	if c.allScripted {
+		op = "srvs"
+	}
+	return fmt.Sprintf("%s %s %s %s %s", op, encNames(c.mechs), fieldSteps(c.steps), c.perm, common.Join(c.peer, ","))
 }
 
 func srvEventXML(ev string) (string, error) {
@@ -628,7 +754,7 @@ func srvEventXML(ev string) (string, error) {
 		if err != nil {
 			return "", err
 		}
-		return "<auth xmlns='" + nsSASL + "' mechanism='" + nc.Esc(ev[1:i]) + "'>" + p.wire() + "</auth>", nil
+		return "<auth xmlns='" + nsSASL + "' mechanism='" + nc.Esc(decName(ev[1:i])) + "'>" + p.wire() + "</auth>", nil
 	case 'R':
 		p, err := parsePayload(ev[1:])
 		if err != nil {
@@ -684,7 +810,7 @@ func permFunc(spec string, t *trace) (func(*sasl.Negotiator) bool, error) {
 
 func runServer(r *common.Run, c srvCase, class string) error {
 	var t trace
-	mechs := buildMechs(c.mechs, c.steps, &t)
+	mechs := buildMechs(c.mechs, c.steps, &t, c.allScripted)
 	if len(mechs) == 0 {
 		return fmt.Errorf("server case without mechanisms")
 	}
@@ -790,7 +916,7 @@ func runServer(r *common.Run, c srvCase, class string) error {
 		case lastStep != "d":
 			r.Fail("server-authn-mechanism-incomplete", "step="+lastStep, lines, "authenticated although the mechanism did not complete without error")
 		default:
-			name := c.peer[la][1:strings.Index(c.peer[la], "/")]
+			name := decName(c.peer[la][1:strings.Index(c.peer[la], "/")])
 			ok := false
 			for _, m := range c.mechs {
 				if m == name {
@@ -806,7 +932,7 @@ func runServer(r *common.Run, c srvCase, class string) error {
 					break
 				}
 			}
-			if name == "PLAIN" {
+			if name == "PLAIN" && !c.allScripted {
 				// the permission callback must have accepted exactly the transmitted credentials
 				p, _ := parsePayload(c.peer[la][strings.Index(c.peer[la], "/")+1:])
 				parts := bytes.Split(p.b, []byte{0})
@@ -861,6 +987,14 @@ func cliStepScripts() [][]step {
 		{m(0xA1), m(0xA2), e},     // error on the second challenge
 		{e},                       // error at Start
 		{m(0xA1), m(0xA2), m(0xA3), m(0xA4), d()}, // five steps
+	}
+}
+
+// nearMisses: names a sloppy comparison could confuse with base.
+func nearMisses(base string) []string {
+	return []string{
+		base, base + "-PLUS", base + "-", strings.ToLower(base), base + " ", " " + base, "",
+		base + base, base[:len(base)-1] + "", base + "-PLUS-PLUS", "-PLUS", base + "-plus",
 	}
 }
 
@@ -1040,6 +1174,65 @@ func Run(r *common.Run) error {
 		}
 	}
 
+	// ---- mechanism names: near misses around the real names (both roles) ----
+	for _, base := range []string{"PLAIN", "SCRAM-SHA-1", "SCRAM-SHA-256", "X"} {
+		u := nearMisses(base)
+		var offers [][]string
+		offers = append(offers, nil)
+		for i := range u {
+			offers = append(offers, []string{u[i]}, []string{u[i], u[i]})
+			for j := i + 1; j < len(u); j++ {
+				offers = append(offers, []string{u[i], u[j]}, []string{u[j], u[i]})
+			}
+		}
+		one := []step{{kind: "d", resp: []byte{1}}}
+		// every single configured name against every offer of at most two names
+		for _, m := range u {
+			for _, adv := range offers {
+				_ = runClient(r, cliCase{mechs: []string{m}, adv: adv, steps: one, peer: []string{"s-"}, allScripted: true}, "cli-names")
+			}
+		}
+		// two configured names (thorough: all ordered pairs; quick: random ones)
+		if !r.Quick() {
+			for _, m1 := range u {
+				for _, m2 := range u {
+					for _, adv := range offers {
+						_ = runClient(r, cliCase{mechs: []string{m1, m2}, adv: adv, steps: one, peer: []string{"s-"}, allScripted: true}, "cli-names2")
+					}
+				}
+			}
+		}
+		for i := 0; i < r.Pick(250, 2000); i++ {
+			pick := func(n int) []string {
+				var l []string
+				for k := 0; k < n; k++ {
+					l = append(l, u[rnd.Intn(len(u))])
+				}
+				return l
+			}
+			_ = runClient(r, cliCase{mechs: pick(1 + rnd.Intn(3)), adv: pick(rnd.Intn(4)), steps: one, peer: []string{"s-"}, allScripted: true}, "cli-names-random")
+		}
+		// receiving side: every configured name (alone / with the base) x every name in <auth/>
+		for _, m := range u {
+			for _, cfg := range [][]string{{m}, {m, base}, {base, m}} {
+				for _, a := range u {
+					_ = runServer(r, srvCase{mechs: cfg, steps: []step{{kind: "d"}}, perm: "any", peer: []string{"A" + encName(a) + "/v01"}, allScripted: true}, "srv-names")
+				}
+			}
+		}
+	}
+	// the real mechanisms against offers of their channel-binding / bare variants only
+	for _, c := range []struct{ cfg, adv []string }{
+		{[]string{"SCRAM-SHA-1"}, []string{"SCRAM-SHA-1-PLUS"}},
+		{[]string{"SCRAM-SHA-256", "SCRAM-SHA-1"}, []string{"SCRAM-SHA-256-PLUS", "SCRAM-SHA-1-PLUS"}},
+		{[]string{"SCRAM-SHA-1-PLUS"}, []string{"SCRAM-SHA-1"}},
+		{[]string{"PLAIN"}, []string{"PLAIN-PLUS", "plain", "PLAIN "}},
+		{[]string{"SCRAM-SHA-1-PLUS", "SCRAM-SHA-1"}, []string{"SCRAM-SHA-1-PLUS-PLUS", "SCRAM-SHA-1"}},
+		{[]string{"ANONYMOUS"}, []string{"ANONYMOUS-PLUS"}},
+	} {
+		_ = runClient(r, cliCase{mechs: c.cfg, adv: c.adv, peer: []string{"s-"}}, "cli-real-names")
+	}
+
 	// ---- client role: real mechanisms ----
 	for _, peer := range [][]string{{"s-"}, {"sv02"}, {"f"}, {"cv01"}, {"cv01", "s-"}, {}, {"w"}, {"s-", "s-"}, {"sbad"}, {"seq"}} {
 		_ = runClient(r, cliCase{mechs: []string{"PLAIN"}, adv: []string{"PLAIN"}, peer: peer}, "cli-plain")
@@ -1060,6 +1253,20 @@ func Run(r *common.Run) error {
 	}
 	for shape := 0; shape <= 5; shape++ {
 		_ = runClient(r, cliCase{mechs: []string{"SCRAM-SHA-1", "PLAIN"}, adv: []string{"PLAIN", "SCRAM-SHA-1"}, dyn: scramPeer(shape)}, fmt.Sprintf("cli-scram-shape%d", shape))
+	}
+
+	// ---- client role: write failures and cancellation at every position ----
+	for _, sc := range scripts {
+		for _, peer := range [][]string{{}, {"s-"}, {"cv01"}, {"cv01", "s-"}, {"cv01", "cv02", "s-"}, {"cv01", "cv02", "cv03", "s-"}, {"sv01"}, {"cv01", "f"}, {"cbad"}} {
+			for wf := 0; wf <= 4; wf++ {
+				for k := -1; k <= 3; k++ {
+					if wf == 0 && k < 0 {
+						continue
+					}
+					_ = runClient(r, cliCase{mechs: []string{"M1"}, adv: []string{"M1"}, steps: sc, peer: peer, env: true, wfail: wf, cancel: k}, "cli-env")
+				}
+			}
+		}
 	}
 
 	// ---- client role: random longer scripts ----
@@ -1175,12 +1382,26 @@ func replayLine(r *common.Run, l string) error {
 		return out, nil
 	}
 	switch {
-	case f[0] == "cli" && len(f) == 5:
+	case f[0] == "clie" && len(f) == 7:
+		st, err := steps(f[5])
+		if err != nil {
+			return err
+		}
+		c := cliCase{mechs: decNames(f[3]), adv: decNames(f[4]), steps: st, peer: list(f[6]), env: true, cancel: -1}
+		if f[1] != "-" {
+			fmt.Sscanf(f[1], "%d", &c.wfail)
+			c.wfail++
+		}
+		if f[2] != "-" {
+			fmt.Sscanf(f[2], "%d", &c.cancel)
+		}
+		return runClient(r, c, "replay")
+	case (f[0] == "cli" || f[0] == "clis") && len(f) == 5:
 		st, err := steps(f[3])
 		if err != nil {
 			return err
 		}
-		return runClient(r, cliCase{mechs: list(f[1]), adv: list(f[2]), steps: st, peer: list(f[4])}, "replay")
+		return runClient(r, cliCase{mechs: decNames(f[1]), adv: decNames(f[2]), steps: st, peer: list(f[4]), allScripted: f[0] == "clis"}, "replay")
 	case f[0] == "srvw" && len(f) == 6:
 		st, err := steps(f[3])
 		if err != nil {
@@ -1188,13 +1409,13 @@ func replayLine(r *common.Run, l string) error {
 		}
 		n := 0
 		fmt.Sscanf(f[1], "%d", &n)
-		return runServer(r, srvCase{mechs: list(f[2]), steps: st, perm: f[4], peer: list(f[5]), wfail: n + 1}, "replay")
-	case f[0] == "srv" && len(f) == 5:
+		return runServer(r, srvCase{mechs: decNames(f[2]), steps: st, perm: f[4], peer: list(f[5]), wfail: n + 1}, "replay")
+	case (f[0] == "srv" || f[0] == "srvs") && len(f) == 5:
 		st, err := steps(f[2])
 		if err != nil {
 			return err
 		}
-		return runServer(r, srvCase{mechs: list(f[1]), steps: st, perm: f[3], peer: list(f[4])}, "replay")
+		return runServer(r, srvCase{mechs: decNames(f[1]), steps: st, perm: f[3], peer: list(f[4]), allScripted: f[0] == "srvs"}, "replay")
 	}
 	return fmt.Errorf("cannot replay line %q", l)
 }
